@@ -52,6 +52,23 @@ impl ThreadContext {
         self
     }
 
+    /// Adds a key of a unique index to the transaction's write set: of two concurrent transactions that
+    /// insert the same key (neither sees the other's entry when it probes the index) only the first
+    /// committer commits.
+    pub(crate) fn record_key_write(&self, index: ObjectId, key: &[u8]) -> RuntimeResult<()> {
+        if let Some(coordinator) = &self.coordinator {
+            use std::hash::{Hash, Hasher};
+            let mut hasher = std::collections::hash_map::DefaultHasher::new();
+            key.hash(&mut hasher);
+            coordinator.record_write(
+                self.tid,
+                LogicalId::new(index, hasher.finish()),
+                TransactionCoordinator::KEY_ENTRY,
+            )?;
+        }
+        Ok(())
+    }
+
     /// Adds a row to the transaction's write set: commit is refused if another transaction that
     /// committed after this one began wrote the same row (first committer wins).
     pub(crate) fn record_write(&self, table: ObjectId, row: RowId) -> RuntimeResult<()> {
